@@ -57,6 +57,12 @@ POSITIONS = {
     'subquery-having': 'select a from int1.t1 group by a having count(*) > (select max(a) from {T})',
     'subquery-order-by': 'select a from int1.t1 order by (select max(a) from {T})',
     'subquery-group-by': 'select count(*) from int1.t1 group by (select max(a) from {T})',
+    # ... and of a select that JOINS tables of two integrations (planned by the join planner, not the single-select path)
+    'join-outer-subquery-having': 'select t1.a, count(*) from int1.t1 as t1 join int2.t5 as u on t1.a = u.a group by t1.a having count(*) > (select max(a) from {T})',
+    'join-outer-subquery-order-by': 'select t1.a from int1.t1 as t1 join int2.t5 as u on t1.a = u.a order by (select max(a) from {T})',
+    'join-outer-subquery-group-by': 'select count(*) from int1.t1 as t1 join int2.t5 as u on t1.a = u.a group by (select max(a) from {T})',
+    'join-outer-subquery-target': 'select t1.a, (select max(a) from {T}) as mx from int1.t1 as t1 join int2.t5 as u on t1.a = u.a',
+    'join-outer-subquery-where': 'select t1.a from int1.t1 as t1 join int2.t5 as u on t1.a = u.a where t1.b in (select a from {T})',
     'subquery-join-on': 'select * from int1.t1 as t1 join int1.t3 as t3 on t1.a = t3.a and t3.b in (select a from {T})',
     'subquery-between': 'select * from int1.t1 where a between 1 and (select max(a) from {T})',
     'subquery-not-in': 'select * from int1.t1 where a not in (select a from {T})',
